@@ -14,6 +14,9 @@ arrays (`P = Nat`); the tree is the replay of the recorded `query_radius` answer
        Di = "-" or bits,bits,...;  TP = "-" or the tree rows as positions of the caller's
        points (t0,t1,...)
   querynd M N S Q J1..JQ -> "ok b:q ..." (return_distance=False)
+  queryarg M N S Q HEX J1..JQ D1..DQ
+                         -> as `query`, but through `queryArg`: the radius is the string HEX (to_kilometers first;
+                            "value-error" / "nonfinite" when it is rejected)
 Anything else -> "bad-op".
 -/
 open Geo
@@ -56,8 +59,10 @@ def errStr : Err → String
 def showNats (l : List Nat) : String :=
   if l.isEmpty then "-" else ",".intercalate (l.map toString)
 
-def runQuery (withDist : Bool) (m : Metric) (n : Nat) (sh : Option (List Nat)) (rows : List String) :
-    String :=
+def ratToFloat (q : Rat) : Float := Float.ofInt q.num / Float.ofNat q.den
+
+def runQuery (withDist : Bool) (m : Metric) (n : Nat) (sh : Option (List Nat)) (rows : List String)
+    (rarg : Option String := none) : String :=
   let q := if withDist then rows.length / 2 else rows.length
   match (rows.take q).mapM parseNatList,
         (if withDist then (rows.drop q).mapM parseNatList else some []) with
@@ -70,7 +75,9 @@ def runQuery (withDist : Bool) (m : Metric) (n : Nat) (sh : Option (List Nat)) (
       let tp := showNats ix.treePoints
       let qs := List.range q
       if withDist then
-        match query T ix qs (0 : Float) with
+        match (match rarg with
+               | none => query T ix qs (0 : Float)
+               | some str => queryArg ratToFloat T ix qs (.str str)) with
         | .error e => errStr e
         | .ok (pairs, ds) =>
           let items := (pairs.zip ds).map (fun (p, d) =>
@@ -106,6 +113,12 @@ def step (line : String) : String :=
     | some m, some n, some sh, some q =>
       if rows.length ≠ 2 * q then "bad-op" else runQuery true m n sh rows
     | _, _, _, _ => "bad-op"
+  | "queryarg" :: m :: n :: s :: q :: h :: rows =>
+    match parseMetric m, n.toNat?, parseShuffle s, q.toNat?,
+          (if h == "-" then some [] else hexToChars h.toList) with
+    | some m, some n, some sh, some q, some cs =>
+      if rows.length ≠ 2 * q then "bad-op" else runQuery true m n sh rows (some (String.ofList cs))
+    | _, _, _, _, _ => "bad-op"
   | "querynd" :: m :: n :: s :: q :: rows =>
     match parseMetric m, n.toNat?, parseShuffle s, q.toNat? with
     | some m, some n, some sh, some q =>
